@@ -55,7 +55,7 @@ def scan_spec(id, file, vecname, gather, c_name, reclaim_c, extra_subst=(), extr
     return td_common(id=id, file=file, sig=r'void scan\(\)', c_sig='static void %s(struct td* self)' % c_name, py_pre=for_each_rule,
                      pre_subst=[CONSTEXPR, VECDECL], subst=[(r'allocation_strategy::', 'AS_', 'alloc_strategy')] + list(extra_subst), methods=methods,
                      calls={'std::sort': 'STD_sort', 'std::unique': 'STD_unique'}, self_calls={'reclaim_nodes': reclaim_c},
-                     post_subst=[(r'(%s\(self, \w+), %s\)' % (reclaim_c, vecname), r'\1, &%s)' % vecname, 'vec_by_ref')],
+                     post_subst=[(r'(%s\(self, [^;]*), %s\);' % (reclaim_c, vecname), r'\1, &%s);' % vecname, 'vec_by_ref')],
                      must_fire=must)
 
 def unw(e, k, l, la, p):
@@ -186,6 +186,28 @@ UNIT = dict(
          c_sig='static void he_guard_reclaim(struct guard* self, int d)', subst=[(r'allocation_strategy::', 'he_', 'alloc_strategy'), (r'local_thread_data\(\)', 'local_thread_data', 'tls_fn')],
          methods={'get': 'GP_get', 'set_deleter': 'N_set_deleter', 'add_retired_node': 'HE_TD_add_retired_node', 'scan': 'TD_scan'}, self_calls={'reset': 'gp_reset'},
          must_fire={'method:add_retired_node': 1, 'method:scan': 1, 'method:set_deleter': 1, 'self_call:reset': 1, 'A_FADD': 1, 'subst:tls_fn': 2}),
+    # ---- active-slot counter: initialize / abandon / growth of a record (static and dynamic strategy) ----
+    dict(id='hp_dyn_number_of_hps', file=HPI, sig=r'\] size_t number_of_hps\(\) const', c_sig='static size_t hp_dyn_number_of_hps(const struct tcb* self)',
+         members=['total_number_of_hps'], must_fire={'member:total_number_of_hps': 1}),
+    dict(id='hp_initialize', file=HPI, sig=r'void initialize\(hint& hint\)', which=0, c_sig='static void hp_tcb_initialize(struct tcb* self, struct slot** hint_p)',
+         subst=[(r'Strategy::number_of_active_hps', 'number_of_active_hps', 'counter'), (r'\bself\(\)\.', 'self->', 'self_fn'), (r'\bself\(\)', '(*self)', 'self_fn2'), (r'\bhint\b', '(*hint_p)', 'hint_ref')],
+         methods={'number_of_hps': 'HP_TCB_number_of_hps'}, calls={'initialize_block': 'XV_INIT_BLOCK'}, must_fire={'A_FADD': 1, 'method:number_of_hps': 1, 'call:initialize_block': 1}),
+    dict(id='hp_allocate_block', file=HPI, sig=r'hazard_pointer\* allocate_new_hazard_pointer_block\(\)', c_sig='static struct slot* hp_allocate_new_block(struct tcb* self)',
+         pre_subst=[(r'size_t buffer_size = [^;]*;\s*void\* buffer = [^;]*;\s*auto block = ::new \(buffer\) hazard_pointer_block\(hps\);', 'auto block = XV_NEW_BLOCK(hps);', 'new_block')],
+         subst=[(r'Strategy::number_of_active_hps', 'number_of_active_hps', 'counter'), (r'Strategy::K', 'XV_K', 'K')], calls={'std::max': 'XV_MAX'},
+         methods={'initialize_block': 'XV_INIT_BLOCK_M'}, members=['total_number_of_hps', 'hp_block'],
+         must_fire={'subst:new_block': 1, 'A_FADD': 1, 'A_LOAD': 1, 'A_STORE': 1, 'call:std::max': 1}),
+    dict(id='he_dyn_number_of_hes', file=HEI, sig=r'\] size_t number_of_hes\(\) const', c_sig='static size_t he_dyn_number_of_hes(const struct tcb* self)',
+         members=['total_number_of_hes'], post_subst=[(r'total_number_of_hes', 'total_number_of_hps', 'member_alias')], must_fire={'member:total_number_of_hes': 1}),
+    dict(id='he_initialize', file=HEI, sig=r'void initialize\(hint& hint\)', which=0, c_sig='static void he_tcb_initialize(struct tcb* self, struct slot** hint_p)',
+         subst=[(r'Strategy::number_of_active_hes', 'number_of_active_hes', 'counter'), (r'\bself\(\)\.', 'self->', 'self_fn'), (r'\bself\(\)', '(*self)', 'self_fn2'), (r'\bhint\b', '(*hint_p)', 'hint_ref')],
+         methods={'number_of_hes': 'HE_TCB_number_of_hes'}, calls={'initialize_block': 'XV_INIT_BLOCK'}, must_fire={'A_FADD': 1, 'method:number_of_hes': 1, 'call:initialize_block': 1}),
+    dict(id='he_allocate_block', file=HEI, sig=r'hazard_era\* allocate_new_hazard_eras_block\(\)', c_sig='static struct slot* he_allocate_new_block(struct tcb* self)',
+         pre_subst=[(r'size_t buffer_size = [^;]*;\s*void\* buffer = [^;]*;\s*auto block = ::new \(buffer\) hazard_eras_block\(hes\);', 'auto block = XV_NEW_BLOCK(hes);', 'new_block')],
+         subst=[(r'Strategy::number_of_active_hes', 'number_of_active_hes', 'counter'), (r'Strategy::K', 'XV_K', 'K')], calls={'std::max': 'XV_MAX'},
+         methods={'initialize_block': 'XV_INIT_BLOCK_M'}, members=['total_number_of_hes', 'he_block'],
+         post_subst=[(r'total_number_of_hes', 'total_number_of_hps', 'member_alias'), (r'he_block', 'hp_block', 'member_alias2')],
+         must_fire={'subst:new_block': 1, 'A_FADD': 1, 'A_LOAD': 1, 'A_STORE': 1, 'call:std::max': 1}),
   ],
   runs=[
     # reclaim_nodes (real text) against an arbitrary sorted vector: the contract used as a stub in the *_scan / *_dtor runs below
@@ -204,6 +226,9 @@ UNIT = dict(
     dict(id='hp_scan_int', entry='h_scan_int', mode='INT', tiers=['quick'], defs=dict(XV_ABS_VEC=1, XV_E=2, XV_K=3, XV_L=2, XV_LA=1), unwindset=unw(2, 3, 2, 1, 'hp'), cls='shape-complete', timeout=900,
          note='INT: other threads rewrite any slot word and any entry state between any two atomic accesses of the scan'),
     dict(id='hp_dtor', entry='h_dtor', defs=dict(XV_ABS_VEC=1, XV_E=3, XV_K=3, XV_L=3, XV_LA=2), unwindset=unw(3, 3, 3, 2, 'hp'), cls='shape-complete', timeout=900),
+    dict(id='hp_balance', entry='h_balance', defs=dict(XV_DYNAMIC=1), cls='unbounded', note='dynamic strategy: a record with any total slot count K <= T < 2^40; initialize, one growth step, abandon'),
+    dict(id='hp_balance_static', entry='h_balance', cls='unbounded', note='static strategy'),
+    dict(id='he_balance', entry='h_balance', defs=dict(XV_HE=1, XV_DYNAMIC=1), cls='unbounded'),
     dict(id='hp_trigger', entry='h_trigger', cls='unbounded', note='all counter values < 2^60 / active-slot counts < 2^32; A, B as compiled (defaults 2, 100)'),
     dict(id='he_scan', entry='h_scan', defs=dict(XV_HE=1, XV_ABS_VEC=1, XV_E=3, XV_K=3, XV_L=3, XV_LA=2), unwindset=unw(3, 3, 3, 2, 'he'), cls='shape-complete', timeout=900),
     dict(id='he_scan_int', entry='h_scan_int', mode='INT', tiers=['quick'], defs=dict(XV_HE=1, XV_ABS_VEC=1, XV_E=2, XV_K=3, XV_L=2, XV_LA=1), unwindset=unw(2, 3, 2, 1, 'he'), cls='shape-complete', timeout=900),
@@ -229,11 +254,12 @@ UNIT = dict(
     'hescan.conserve': dict(deciding=True, text='HE scan / reclaim_nodes: same conservation statement (C02)'),
     'hpscan.dtor.hands_over_all': dict(deciding=True, text='~thread_data (HP and HE): every retired/adopted node is deleted exactly once or handed to the global abandoned list exactly once (release CAS), the thread keeps nothing; with an empty retire list nothing is scanned (C02)'),
     'hpscan.dtor.releases_record': dict(deciding=True, text='~thread_data releases the control block: its state becomes free by a release store, the active-slot counter is reduced by K, no other record changes (C17)'),
+    'hpscan.active_hps.balanced': dict(deciding=True, text='number_of_active_hps / _hes: initialize() adds exactly the record\'s current number of slots (incl. dynamic blocks), a growth step adds exactly what it adds to the record, abandon() subtracts exactly the current number: the counter equals the sum over active records and returns to its old value after initialize..abandon'),
     'hpscan.retire.once_then_trigger': dict(deciding=True, text='guard_ptr::reclaim: guard reset, deleter stored, (HE: retirement_era = era_clock++ with release), node pushed exactly once, scan called iff the new count >= A*active+B and then after all of that'),
   },
   replays={'hpscan.spares_protected': dict(src='replay_scan.cpp'), 'hpscan.skips_inactive': dict(src='replay_scan.cpp'), 'hpscan.conserve': dict(src='replay_scan.cpp'),
            'hescan.spares_protected_interval': dict(src='replay_scan.cpp', cxxflags=['-DREPLAY_HE']), 'hescan.conserve': dict(src='replay_scan.cpp', cxxflags=['-DREPLAY_HE'])},
   canaries=['gather.value', 'gather.link', 'gather.full', 'reclaim.spared', 'reclaim.deleted', 'reclaim.full', 'reclaim.empty_vector',
             'scan.own_spared', 'scan.adopted_spared', 'scan.own_deleted', 'scan.adopted_deleted', 'scan.inactive_entry_ignored', 'scan.outside', 'scan.full_all_spared', 'scan.no_entries',
-            'scan_int.deleted', 'scan_int.spared', 'dtor.handed_over', 'dtor.deleted', 'dtor.nothing_retired', 'dtor.released', 'dtor.no_record', 'trigger.scan', 'trigger.no_scan'],
+            'scan_int.deleted', 'scan_int.spared', 'dtor.handed_over', 'dtor.deleted', 'dtor.nothing_retired', 'dtor.released', 'dtor.no_record', 'trigger.scan', 'trigger.no_scan', 'balance.grown', 'balance.plain'],
 )
